@@ -146,4 +146,14 @@ Fixpoint run_seq (st : unit) (cs : list call) : list (T * bool * list T) :=
   | [] => []
   | c :: r => let '(st', o) := step st c in o :: run_seq st' r
   end.
+
+(** ** Re-entrant integrands.
+    An integrand may itself use the integrator (Integrate_2D(...,"Adaptive-Simpson") nests Integrate in exactly this
+    way; so does an integrand written with GammaQ or a normalised pdf): at the abscissa [x] it makes the call [mk x]
+    (any of the four kinds, with its own integrand, limits, epsilon and depth, all of which may depend on [x]) and
+    returns [E x J] where [J] is the value that call returned.  Integrate takes the integrand by value and section 1.1
+    keeps nothing between or across calls, so in the model this is plain composition of functions: the inner call is
+    evaluated as if it were made alone, and the outer call sees an ordinary function [T -> T]. *)
+Definition reentrant (mk : T -> call) (E : T -> T -> T) : T -> T :=
+  fun x => E x (fst (fst (run_call (mk x)))).
 End Model.
